@@ -29,7 +29,7 @@ inductive V where
   | asU32 (e : V)
   | dataLen                    -- `asm.data.len()`
   | add (a b : V)
-  | matchInt (e : V) (arms : List (Int × V)) (dflt : Option V)   -- `none` = `unreachable!()`
+  | matchInt (e : V) (arms : List (Int × Int)) (dflt : Option Int)   -- `none` = `unreachable!()`
   deriving Repr, Inhabited
 
 /-- Conditions. -/
@@ -58,12 +58,12 @@ inductive S where
   | constExpr (t e : List S)                         -- `match asm.const_expr()? {(loc,Some(value)) => t, (loc,None) => e}`
   | ite (c : C) (t e : List S)
   | letV (x : String) (e : V)
-  | letMatch (x : String) (e : V) (arms : List (Int × V)) (dflt : List S)
+  | letMatch (x : String) (e : V) (arms : List (Int × Int)) (dflt : List S)
   | letPeek (x : String) (p : Pat)                   -- `let x = matches!(asm.peek()?, p);`
   | itePeekSym (s : String) (t e : List S)           -- `if asm.peeked_symbol(S)?.is_some() {t} else {e}`
   | letPeekSym (x : String) (s : String) (t e : List S) (tv ev : Bool)
   | link (kind : String) (off : V)                   -- `asm.links.push(Link::kind(loc, off, expr))`
-  | err                                              -- `return asm_err!(…)`
+  | err (cls : String)                               -- `return asm_err!(…)`; class read off the message
   | eoiErr                                           -- `return asm.end_of_input_err()`
   | retOk                                            -- `return Ok(())`
   | unknown (text : String)                          -- something the translator could not read
